@@ -60,7 +60,7 @@ def run(res, tier, seed, replay):
         outs = [("replay", replay["replay"]["record"] + "\n")]
     else:
         jobs = []
-        nv = 6 if th else 2
+        nv = 4 if th else 2
         for i in range(nv):
             jobs.append(("vtmf", ["--only", "vtmf"], seed + 1000 * i))
         jobs.append(("vbig", ["--only", "vbig"], seed))
